@@ -152,7 +152,7 @@ def run(facts, R):
     has = set()
     for x in sorted(wb.live_blocks()):
         for f in facts_at(wb, ws, facts, x):
-            if str(f["val"]) == "Err" and is_call(f["expr"], "recv", "recv_timeout"):
+            if str(f["val"]) == "Err" and not f.get("derived") and is_call(f["expr"], "recv", "recv_timeout"):
                 has.add(x)
     preds = wb.preds()
     recv_fail = [(x, 0) for x in sorted(has) if any(p_ not in has for p_ in preds.get(x, []))]   # entry blocks of the failure regions
